@@ -448,6 +448,24 @@ def mk_tfield(base, i):
 def mk_vfield(base, variant, i):
     if base[0] == "adt" and base[1] == variant and i < len(base[2]):
         return base[2][i][1]
+    if base[0] == "phi" and len(base) > 3:
+        # reading the payload of variant V presupposes the value IS a V: alternatives built as another variant of the
+        # same enum cannot be the one flowing here (`(phi(None | Some{x}) as Some).0` is x)
+        enum_ = variant.rsplit("::", 1)[0]
+        vals, unknown = [], False
+        for alt in base[3]:
+            if alt[0] == "enum" and alt[1] == enum_:
+                continue
+            if alt[0] == "adt" and alt[1].rsplit("::", 1)[0] == enum_:
+                if alt[1] == variant and i < len(alt[2]):
+                    v_ = alt[2][i][1]
+                    if v_ not in vals:
+                        vals.append(v_)
+                continue
+            unknown = True
+            break
+        if not unknown and vals:
+            return vals[0] if len(vals) == 1 else ("phi", base[1], base[2], tuple(vals))
     # `o?` on an Option: (Option::branch(o) as Continue).0 == (o as Some).0
     if base[0] == "call" and base[1].endswith("::branch") and "option::Option" in base[1] and len(base[2]) == 1 and variant.endswith("ControlFlow::Continue") and i == 0:
         return mk_vfield(base[2][0], "core::option::Option::Some", 0)
